@@ -96,12 +96,14 @@ class TlcResult:
 
 
 def tlc(module, cfg=None, env=None, workers=1, extra=(), timeout=1800, metadir=None,
-        heap="4g", simulate=None):
+        heap="4g", simulate=None, fulljit=False):
     """Run TLC on spec/<module>.tla; returns TlcResult."""
     cfg = cfg or module + ".cfg"
     md = metadir or os.path.join(WORK, "tlc", "%s-%d-%d" % (module, os.getpid(), int(time.time() * 1000) % 100000000))
     os.makedirs(md, exist_ok=True)
-    gc = ["-XX:+UseSerialGC", "-XX:TieredStopAtLevel=1", "-Xshare:auto"] if workers == 1 else ["-XX:+UseParallelGC"]
+    # trace validation runs several short single-worker JVMs side by side: C1 only; generators compute longer
+    gc = ((["-XX:+UseSerialGC"] + ([] if fulljit else ["-XX:TieredStopAtLevel=1", "-Xshare:auto"]))
+          if workers == 1 else ["-XX:+UseParallelGC"])
     cmd = ["java", "-Xmx" + heap, "-Xss64m"] + gc + ["-cp", JAR + ":/opt/veriftools/tla/CommunityModules-deps.jar",
            "tlc2.TLC", "-workers", str(workers), "-metadir", md, "-config", cfg, "-noGenerateSpecTE"]
     if simulate:
